@@ -4,6 +4,7 @@ lemmas (HintsChars) and the token-level ones (HintsSched).
 -/
 import Paroxy.Proofs.HintsChars
 import Paroxy.Proofs.HintsSched
+import Paroxy.Proofs.Isort
 namespace Paroxy.Hints
 
 /-! ### `set` / `sorted` of the isolated hints -/
@@ -31,12 +32,12 @@ theorem nodup_dedup (l : List Str) : (dedup l).Nodup := by
     · rename_i h; exact List.nodup_cons.mpr ⟨h, ih⟩
 
 theorem mem_sortDedup (x : Str) (l : List Str) : x ∈ sortDedup l ↔ x ∈ l := by
-  rw [sortDedup, (List.mergeSort_perm _ _).mem_iff, mem_dedup]
+  rw [sortDedup, (isort_perm _ _).mem_iff, mem_dedup]
 
 theorem nodup_sortDedup (l : List Str) : (sortDedup l).Nodup :=
-  (List.mergeSort_perm _ _).nodup_iff.mpr (nodup_dedup l)
+  (isort_perm _ _).nodup_iff.mpr (nodup_dedup l)
 
-theorem sortDedup_nil : sortDedup [] = [] := by simp [sortDedup, dedup]
+theorem sortDedup_nil : sortDedup [] = [] := rfl
 
 theorem sortDedup_ne_nil {l : List Str} (h : l ≠ []) : sortDedup l ≠ [] := by
   cases l with
@@ -661,9 +662,9 @@ theorem spansOf_nil_of_not_mem (L : Str) (res : List Entry) (h : L ∉ labelsOf 
 theorem count_getResult (res : List Entry) (L : Str) (sp : Nat × Nat) :
     (getResult res).count L sp = (spansOf L res).count sp := by
   simp only [Sched.count, getResult, List.map_map, Function.comp_def]
-  rw [sum_ite_nodup L (fun x => ((spansOf x res).mergeSort spanLe).count sp) _ (nodup_labelsOf res)]
+  rw [sum_ite_nodup L (fun x => (isort spanLe (spansOf x res)).count sp) _ (nodup_labelsOf res)]
   split
-  · exact (List.mergeSort_perm _ _).count_eq sp
+  · exact (isort_perm _ _).count_eq sp
   · rename_i h; rw [spansOf_nil_of_not_mem L res h]; rfl
 
 theorem stack_nil_of_linesOf (stk : List (Str × Nat)) (h : ∀ L, linesOf L stk = []) : stk = [] := by
